@@ -100,3 +100,10 @@ package method_evaluator
 //@   eosexit
 //@   inline 14 2
 //@   witness eos:loop0#1 "class Hoge\n  attr_accessor"
+
+//@ # ---- C24: one caller entry per evaluated call, recorded in the check round only ----
+//@ func ti/eval/method_evaluator.NewMethodEvaluator
+//@   sitesonly
+//@   inline 10 2
+//@   mapwrite[C24] base.MethodCallPoint ctx.round == "check" && key == evaluatedObjectT.GetFrame() + evaluatedObjectT.GetObjectClass() + methodIdentifierT.ToString()
+//@   mapwrite[C24] base.MethodCalleePoint ctx.round == "check" && key == ctx.frame + ctx.class + ctx.method
